@@ -1,6 +1,7 @@
 """Contracts for the legacy front-end's registration API (ndn/app.py; properties C04, C17): set_interest_filter,
 unset_interest_filter, register, unregister - against the assumed trie (contracts/fib.py), an assumed express_interest and
 the assumed layout of make_command (its v2 core is verified in contracts/nfdreg.py)."""
+import asyncio
 import struct
 import z3
 from ndn import app as app1, types
@@ -132,6 +133,16 @@ class _RegBase(Contract):
         run.ghost['reg1'] = dict(calls=[], sem=sem)
         return mk_app(cx, fib, sem), fib, sem
 
+    @staticmethod
+    def cancelled(cx, *a, **p):
+        return cx.run.ghost['reg1']['sem'].cancelled
+
+    def cancel_xpost(c, cx):
+        g = cx.run.ghost['reg1']
+        # one at a time, whatever happens to the callers: who never got the permit does not hand one out, and sends nothing
+        return {'a_caller_cancelled_while_queued_leaves_the_permits_alone': g['sem'].log == [] and g['sem'].held == 0,
+                'a_caller_cancelled_while_queued_sends_no_command': g['calls'] == []}
+
     def common(c, cx, result, self, name):
         g = cx.run.ghost['reg1']
         sem = g['sem']
@@ -161,7 +172,9 @@ class register_v1(_RegBase):
            'command is sent); then exactly one rib/register command naming the prefix is expressed with a 1 s lifetime while holding '
            'the semaphore; True iff the reply decodes to status 200; Nack, timeout, cancellation, validation failure, an '
            'undecodable reply or another status give False; nothing else is raised')
-    raises = {ValueError: lambda cx, self, name, func, **p: func is not None}
+    raises = {ValueError: lambda cx, self, name, func, **p: func is not None,
+              # a caller cancelled while it is still queued for the semaphore sees its CancelledError
+              asyncio.CancelledError: _RegBase.cancelled}
 
     def setup(self, cx):
         run = cx.run
@@ -173,6 +186,8 @@ class register_v1(_RegBase):
     def xpost(c, cx, e, self, name, func, validator, need_raw_packet, need_sig_ptrs):
         g = cx.run.ghost['reg1']
         f = cx.run.ghost['fib']
+        if issubclass(e.cls, asyncio.CancelledError):
+            return c.cancel_xpost(cx)
         return {'duplicate_refused_before_any_command': g['calls'] == [] and f.writes == [] and
                 z3.And(z3.Select(f.dom0, zint(name.kid)), z3.Select(f.cb0, zint(name.kid)))}
 
@@ -193,7 +208,10 @@ class unregister_v1(_RegBase):
     doc = ('legacy unregister: the handler of exactly this prefix is removed (none is not an error), then exactly one rib/unregister '
            'command naming the prefix is expressed (1 s lifetime, semaphore held); True iff the reply decodes to status 200, False '
            'for every other outcome; nothing is raised')
-    raises = {}
+    raises = {asyncio.CancelledError: _RegBase.cancelled}
+
+    def xpost(c, cx, e, self, name):
+        return c.cancel_xpost(cx)
 
     def setup(self, cx):
         app_, fib, sem = self.mk(cx)
